@@ -156,11 +156,16 @@ func (r *Runner) perNodeFn(sc ScParams) func(*puppet.Req, uint32) *puppet.Req {
 // issue invokes the generated stub of the scenario's method and reports what
 // it returned as a StubRet event.
 func (r *Runner) issue(tok uint64, sc ScParams, ctx context.Context, req *puppet.Req, obj *callObj) {
+	r.Invoke(tok, sc.Method, sc.Kind, r.E.Cfgs[sc.N], r.E.Node(1), r.perNodeFn(sc), sc.Nsw, ctx, req, obj)
+}
+
+// Invoke calls the generated stub of method on cfg (or node for RPC and
+// unicast) and reports what it returned as a StubRet event.
+func (r *Runner) Invoke(tok uint64, method, kind string, cfg *puppet.Configuration, node *puppet.Node,
+	f func(*puppet.Req, uint32) *puppet.Req, nsw bool, ctx context.Context, req *puppet.Req, obj *callObj) {
 	tr := r.E.Tr
-	cfg := r.E.Cfgs[sc.N]
-	f := r.perNodeFn(sc)
 	var opts []gorums.CallOption
-	if sc.Nsw {
+	if nsw {
 		opts = append(opts, gorums.WithNoSendWaiting())
 	}
 	panicked := false
@@ -173,9 +178,9 @@ func (r *Runner) issue(tok uint64, sc ScParams, ctx context.Context, req *puppet
 				err = fmt.Errorf("panic: %v", p)
 			}
 		}()
-		switch sc.Method {
+		switch method {
 		case "Rpc":
-			res, err = r.E.Node(1).Rpc(ctx, req)
+			res, err = node.Rpc(ctx, req)
 		case "QC":
 			res, err = cfg.QC(ctx, req)
 		case "QCPerNode":
@@ -210,9 +215,9 @@ func (r *Runner) issue(tok uint64, sc ScParams, ctx context.Context, req *puppet
 		case "McastPerNode":
 			cfg.McastPerNode(ctx, req, f, opts...)
 		case "Ucast":
-			r.E.Node(1).Ucast(ctx, req, opts...)
+			node.Ucast(ctx, req, opts...)
 		default:
-			err = fmt.Errorf("unknown method %s", sc.Method)
+			err = fmt.Errorf("unknown method %s", method)
 			panicked = true
 		}
 	}()
@@ -223,12 +228,16 @@ func (r *Runner) issue(tok uint64, sc ScParams, ctx context.Context, req *puppet
 		}
 	}
 	ei := classify(err)
-	if sc.Kind == "rpc" && err != nil && ei.tag == "other" {
+	if kind == "rpc" && err != nil && ei.tag == "other" {
 		ei.tag = "err"
 	}
 	isNil, _, idx, restok, _ := resInfo(res)
+	errtext := ""
+	if err != nil {
+		errtext = err.Error()
+	}
 	tr.Emit("StubRet", 0, tok, "panicked", panicked, "tag", ei.tag, "cause", ei.cause, "qfidx", idx, "restok", restok,
-		"resnil", isNil, "nerr", ei.nerr, "nrep", ei.nrep, "errnodes", ei.errnodes)
+		"resnil", isNil, "nerr", ei.nerr, "nrep", ei.nrep, "errnodes", ei.errnodes, "errtext", errtext)
 }
 
 func (r *Runner) obsAsync(tok uint64, obj *callObj, wait bool) {
